@@ -18,6 +18,9 @@ func genExpandScenario(prop string, r *sim.RNG, tier string, idx int) *Scenario 
 	if idx < gen.SmallCount {
 		sc.World = gen.Small(idx)
 		sc.Note = fmt.Sprintf("small topology %d", idx)
+	} else if idx < gen.SmallCount+gen.ChainCount {
+		sc.World = gen.Chain(idx - gen.SmallCount)
+		sc.Note = fmt.Sprintf("systematic element chain %d", idx-gen.SmallCount)
 	} else {
 		cfg := gen.DrawCfg(r)
 		cfg.IllFounded = false
